@@ -3,7 +3,7 @@ TITLE = 'predict is transparent to batching and keeps extra arguments aligned'
 CONTRACT_MODULES = ['contracts.utils_c', 'contracts.predict_c']
 FUNCTIONS = ['tangermeme.predict.predict']
 BOUNDED = 'bounded.C03'
-BOUNDED_BUDGET = {'quick': 60, 'thorough': 600}
+BOUNDED_BUDGET = {'quick': 120, 'thorough': 600}
 LEVEL = 'proof'
 EXPLANATION = ("loop invariant over the abstract cat-view of the output list (first min(it*b, N) rows of the per-example "
                "specification), ghost eval/no-grad state at every model call, raises-iff on leading dimensions, empty frame; "
